@@ -29,6 +29,8 @@ func checkC12(c *Ctx, r *Report) {
 	writeDeadline(c, r, "C12.R2.write-deadline")
 	readErrorKept(c, r, "C12.R1.read-error-kept")
 	readersCutToCount(c, r, "C12.R4.readers-cut-to-count")
+	noReadAhead(c, r, "C12.R1.no-read-ahead")
+	matchingIdEndsWait(c, r, "C12.R3.matching-id-ends-wait")
 }
 
 func isConnRead(call *ssa.Call) bool {
